@@ -50,6 +50,21 @@ pub struct GCase {
 }
 
 impl GCase {
+    /// The same case from a non-initial composer state: the component was
+    /// already called once on the very same input witnesses (outputs dropped).
+    /// Expectation unchanged; honest run (and real-prover replay) only.
+    pub fn after_self_call(&self) -> GCase {
+        let f = self.g.f.clone();
+        let mut c = self.clone();
+        c.g = c.g.with_prelude("self-call", move |comp, ins| f(comp, ins).map(|_| ()));
+        c.class = format!("{}/after-self-call", c.class);
+        c.named = None;
+        c.extra = None;
+        c.bound2 = false;
+        c.rewire = false;
+        c.dev_stride = 0;
+        c
+    }
     pub fn new(g: Gadget, expect: Expect, class: &str) -> Self {
         GCase { g, expect, class: class.to_string(), extra: None, named: None, bound2: false, confirm: true, dev_stride: 1, rewire: false, rewire_confirm_cap: 32 }
     }
@@ -72,6 +87,7 @@ pub struct CaseReport {
     pub n_rewire_free: u64,
     pub rows: usize,
     pub violations: Vec<(String, String, Value)>,
+    pub machinery: Vec<String>,
     pub key: u64,
 }
 
@@ -209,6 +225,8 @@ pub fn run_case(c: &GCase, cache: &ConfirmCache) -> CaseReport {
     // real-prover confirmation of the model's verdicts
     if c.confirm {
         match cache.get(&c.g, rep.layout) {
+            // too small an SRS for this case is a sizing mistake of the harness, not a verdict
+            Err(e) if e.contains("TruncatedDegreeTooLarge") || e.contains("DegreeIsZero") => rep.machinery.push(format!("{}: compile for confirmation failed: {} (harness SRS too small)", c.g.name, e)),
             Err(e) => rep.violations.push((format!("{}/compile-failed", c.class), e.clone(), json!({"gadget": c.g.name, "error": e}))),
             Ok(conf) => {
                 let mut todo: Vec<(Vec<(usize, Fe)>, bool, String)> = vec![(vec![], hsat, "honest".into())];
@@ -299,6 +317,9 @@ pub fn absorb(run: &mut Run, reports: Vec<Result<CaseReport, String>>, names: &[
                 }
                 if run.samples.len() < 8 {
                     run.sample(json!({"case": rep.name, "class": rep.class, "rows": rep.rows, "honest": rep.honest_state, "deviations": rep.n_devs, "model_satisfiable_deviations": rep.n_sat, "prover_runs": rep.confirmed}));
+                }
+                for m in rep.machinery {
+                    run.machinery(m);
                 }
                 for (sig, what, j) in rep.violations {
                     run.violation(&sig, &what, j);
